@@ -191,6 +191,9 @@ func checkC15(ctx *Ctx, r *Report) {
 	r.Floor("transformations analysed", 19)
 	r.Floor("write-set entries", 25)
 	c15GetKnownKey(ctx, r)
+	c15NoAdHocNameMatch(ctx, r)
+	c15ConfiguredHintWins(ctx, r)
+	c03MapOrderIn(ctx, r, []string{"internal/ast/compiler", "internal/yaml"})
 	c05Visitor(ctx, r)
 	c07ConfigOwnership(ctx, r)
 }
@@ -687,4 +690,125 @@ func c15GetKnownKey(ctx *Ctx, r *Report) {
 	})
 	r.Count("orderedmap Get calls outside the orderedmap package", n)
 	r.Floor("orderedmap Get calls outside the orderedmap package", 6)
+}
+
+// c15NoAdHocNameMatch: the targets of a transformation are given as references (package + object [+ field]); whether an
+// object is the target is decided by the reference's own matchers (ObjectReference.Matches / MatchesRef,
+// FieldReference.Matches: package compared exactly, names case-insensitively, in one conjunction — checked by
+// selectors/shape). A pass that compares the name part of a reference itself (`strings.EqualFold(x, pass.From.Object)`)
+// forgets the package: the same-named object of every other package is a target too.
+func c15NoAdHocNameMatch(ctx *Ctx, r *Report) {
+	p := ctx.Pkg("internal/ast/compiler")
+	if p == nil {
+		return
+	}
+	info := p.TypesInfo
+	isRefName := func(e ast.Expr) bool {
+		s, ok := ast.Unparen(e).(*ast.SelectorExpr)
+		if !ok || (s.Sel.Name != "Object" && s.Sel.Name != "Field") {
+			return false
+		}
+		nt := namedOf(info.TypeOf(s.X))
+		return nt != nil && (nt.Obj().Name() == "ObjectReference" || nt.Obj().Name() == "FieldReference")
+	}
+	n, bad := 0, 0
+	for _, file := range p.Syntax {
+		fname := ctx.Fset.Position(file.Pos()).Filename
+		if strings.HasSuffix(fname, "/types.go") {
+			continue // the matchers themselves
+		}
+		var fn string
+		ast.Inspect(file, func(m ast.Node) bool {
+			if fd, ok := m.(*ast.FuncDecl); ok {
+				fn = fd.Name.Name
+				if fd.Recv != nil && len(fd.Recv.List) == 1 {
+					fn = exprString(fd.Recv.List[0].Type) + "." + fn
+				}
+			}
+			var operands []ast.Expr
+			switch x := m.(type) {
+			case *ast.BinaryExpr:
+				if x.Op == token.EQL || x.Op == token.NEQ {
+					operands = []ast.Expr{x.X, x.Y}
+				}
+			case *ast.CallExpr:
+				if f := callee(info, x); f != nil && (f.FullName() == "strings.EqualFold" || f.Name() == "StringInListEqualFold" || f.Name() == "ItemInList") {
+					operands = x.Args
+				}
+			}
+			if operands == nil {
+				return true
+			}
+			n++
+			for _, o := range operands {
+				if isRefName(o) {
+					bad++
+					r.Bad("selectors/no-adhoc-name-match", fmt.Sprintf("compiler.%s compares %s", fn, exprString(o)), m.Pos(),
+						fmt.Sprintf("compiler.%s decides about a target by comparing %s itself instead of asking the reference (Matches / MatchesRef): the package is not part of the comparison — the object of that name in every other package is treated as the target too", fn, exprString(o)))
+				}
+			}
+			return true
+		})
+	}
+	r.Count("comparisons in the transformation passes", n)
+	r.Floor("comparisons in the transformation passes", 30)
+	if bad == 0 {
+		r.OK("selectors/no-adhoc-name-match", "transformation passes", token.NoPos, "no pass compares the name part of a reference itself")
+	}
+}
+
+// c15ConfiguredHintWins: hint_object sets the configured hints on its target: for a key the object already carries, the
+// configured value replaces the old one. In HintObject.processObject no store into the hints that copies the object's
+// *existing* hints may come after the stores of the configured ones.
+func c15ConfiguredHintWins(ctx *Ctx, r *Report) {
+	fn := ctx.LookupMethod("internal/ast/compiler", "HintObject", "processObject")
+	fd, p := ctx.DeclOf(fn)
+	if fd == nil {
+		r.Undecided("anchor lost: HintObject.processObject")
+		return
+	}
+	info := p.TypesInfo
+	hintsF := astField(ctx, "Type", "Hints")
+	var recv types.Object
+	if fd.Recv != nil && len(fd.Recv.List) == 1 && len(fd.Recv.List[0].Names) == 1 {
+		recv = info.Defs[fd.Recv.List[0].Names[0]]
+	}
+	lastConfigured, lastExisting := token.NoPos, token.NoPos
+	ast.Inspect(fd.Body, func(m ast.Node) bool {
+		rs, ok := m.(*ast.RangeStmt)
+		if !ok {
+			return true
+		}
+		ap := accessPathOf(info, rs.X)
+		if !ap.ok {
+			return true
+		}
+		stores := false
+		ast.Inspect(rs.Body, func(q ast.Node) bool {
+			if as, ok := q.(*ast.AssignStmt); ok {
+				for _, l := range as.Lhs {
+					if _, ok := ast.Unparen(l).(*ast.IndexExpr); ok {
+						stores = true
+					}
+				}
+			}
+			return true
+		})
+		if !stores {
+			return true
+		}
+		if ap.root == recv {
+			lastConfigured = rs.Pos()
+		} else if fieldOf(info, rs.X) == hintsF {
+			lastExisting = rs.Pos()
+		}
+		return true
+	})
+	r.Count("hint stores of hint_object", 1)
+	if !lastConfigured.IsValid() {
+		r.Undecided("anchor lost: the loop of HintObject.processObject that stores the configured hints")
+		return
+	}
+	r.Check(!lastExisting.IsValid() || lastExisting < lastConfigured, "effects/configured-value-wins", "HintObject.processObject", fd.Pos(), "the configured hints are stored last",
+		"HintObject.processObject copies the object's existing hints over the configured ones: for a key the object already carries (implements_variant set by a loader, an earlier hint_object) the transformation has no effect while its trail claims the new value")
 }
